@@ -100,6 +100,9 @@ func (s *c09Spec) configJSON() []byte {
 		}
 		m := map[string]any{"name": b.Name, "apiVersion": "v1", "kind": "ConfigMap",
 			"namespace": map[string]any{"nameSelector": map[string]any{"matchNames": []any{b.NS}}}}
+		if b.Name == "kubernetes" {
+			delete(m, "name") // an unnamed binding: the loader calls it "kubernetes"
+		}
 		if b.F != nil {
 			m["jqFilter"] = b.F.text()
 		}
@@ -194,6 +197,24 @@ type c09Env struct {
 	seq    int
 }
 
+// c09SameNames: do two bindings of one type share a name (getIncludeSnapshotsFrom / SnapshotsFor look up by name)?
+func c09SameNames(s *c09Spec) bool {
+	seen := map[string]bool{}
+	for _, b := range s.KBs {
+		if seen["k/"+b.Name] {
+			return true
+		}
+		seen["k/"+b.Name] = true
+	}
+	for _, o := range s.Others {
+		if seen[o.Kind+"/"+o.Name] {
+			return true
+		}
+		seen[o.Kind+"/"+o.Name] = true
+	}
+	return false
+}
+
 func optStr(s string) string {
 	if s == "" {
 		return "-"
@@ -209,6 +230,9 @@ func c09Start(r *Run, c *Case, spec *c09Spec) *c09Env {
 	script := filepath.Join(e.dir, "hook.sh")
 	_ = os.WriteFile(script, []byte("#!/bin/bash\ncat \"$BINDING_CONTEXT_PATH\" > \"$0.out\"\n"), 0o755)
 
+	if c09SameNames(spec) {
+		c.Known = "same-name-bindings" // classifier of the recorded finding: two bindings of one type share a name
+	}
 	c.Op(fmt.Sprintf("hook version=%s", spec.Version), "ok")
 	for _, b := range spec.KBs {
 		jqText, ast := "-", "-"
@@ -705,6 +729,25 @@ func runC09(r *Run) {
 			e.run(all)
 		})
 	}
+
+	// ---- excluded point of the theorems' well-formedness hypothesis: two bindings of one type with the same name
+	//      (two unnamed kubernetes bindings are both called "kubernetes")
+	r.One(6, func(c *Case, _ *Rng) {
+		c.Desc = "known finding same-name-bindings: two unnamed kubernetes bindings (both named `kubernetes`) watching different namespaces"
+		c.Nontrivial = true
+		nsA, nsB := fmt.Sprintf("c09-%d-a", c.Idx), fmt.Sprintf("c09-%d-b", c.Idx)
+		spec := &c09Spec{Version: "v1", KBs: []c09KB{{Name: "kubernetes", NS: nsA, Keep: true}, {Name: "kubernetes", NS: nsB, Keep: true}}}
+		e := c09Start(r, c, spec)
+		defer e.close()
+		if e == nil {
+			return
+		}
+		if !e.change("put", nsA, "o1", c08Obj(nsA, "o1", 1, "x", 0)) || !e.change("put", nsB, "o2", c08Obj(nsB, "o2", 2, "y", 0)) || !e.sync() {
+			return
+		}
+		e.run([]int{0})
+		e.run([]int{1})
+	})
 
 	// ---- systematic sweep: every combination of the options the contract mentions
 	//   version v1: filter result kind (none/object/scalar/array/null/string) x keepFullObjectsInMemory x group x
